@@ -189,6 +189,7 @@ PSY_INTERNAL:
     PSY_GRANT_INTERNAL_ACCESS(SyntaxNode);
     PSY_GRANT_INTERNAL_ACCESS(Lexer);
     PSY_GRANT_INTERNAL_ACCESS(Parser);
+    PSY_GRANT_INTERNAL_ACCESS(Unparser);
 
     SyntaxToken(SyntaxTree* tree);
 
